@@ -572,6 +572,24 @@ def check_c17(run, replay):
     run.extra.setdefault("families", []).extend(dict(v, family=k) for k, v in sorted(famu.fam_stats.items()))
     if famu.corr_broken and not any(not ni for _, ni in run.violations):
         broken.append(("correspondence on F-utf8-edges", json.dumps(famu.corr_broken[:3])[:3000]))
+    # a source type whose AsRef<str> answers differently on every call (safe, caller-defined): the tables and the
+    # stored text must come from ONE reading; the result must be the parse of the first answer, without a panic
+    firsts = ["package p; var x = aaaa + bbbb", "x + y*z", "package p\nfunc f() { a <<= 1; b &^= 2 }", "a.b(c)[d]", "\u65e5 := \"\u00e9\""]
+    laters = ["\u65e5" * 12, "\u00e9x" * 10, "a\U0001F600" * 8, "", "\u00bf\uffff" * 9, "package p"]
+    recs = [f + "\x01" + l for f in firsts for l in laters]
+    got = vlib.run_records(gv, "fickle", recs)
+    want = vlib.run_records(gv, "parse", [r.split("\x01")[0] for r in recs])
+    nf = 0
+    for r, g_, w_ in zip(recs, got, want):
+        calls, _, line = g_.partition(" ")
+        if "PANIC" in g_ or "DIED" in g_ or line != w_:
+            nf += 1
+            if nf <= 3:
+                run.violation({"kind": "impl-vs-spec", "family": "F-fickle-source", "input": r, "impl": g_[:300], "expected": w_[:300],
+                               "oracle": "a source whose AsRef<str> changes between calls: the result must be the parse of the first answer "
+                               "(as_ref calls: %s), got: %s" % (calls, g_[:160])})
+    run.cov["evaluations"] += len(recs)
+    run.extra.setdefault("families", []).append({"family": "F-fickle-source", "inputs": len(recs), "failures": nf})
     run.cov["distinct_nontrivial"] = sum(1 for i in range(min(total, 200000)) if any(ord(c) > 127 for c in decode(ALPHABETS["utf8"], i)))
     run.cov["rule"] = ("exhaustive: every string of length <= %d over 1-, 2-, 3- and 4-byte characters, operator characters, digits, quotes, "
                        "blank and newline; scanned alone (crate vs extracted model) and parsed as a variable initialiser and as a statement "
@@ -716,6 +734,10 @@ def oracle_positions(c, line, tl):
         for p, text in cs:
             if c.src[p:p + len(text)] != text:
                 return "comment %r of %s is recorded at @%d where the source has %r" % (text[:30], w, p, c.src[p:p + min(len(text), 30)])
+        # siblings in source order: each list of comments is strictly increasing in position
+        ps = [p for p, _ in cs]
+        if any(a >= b for a, b in zip(ps, ps[1:])):
+            return "comments of %s are not in source order: positions %r" % (w, ps[:12])
     return None
 
 
@@ -788,7 +810,22 @@ check_c05 = parser_check(
     "multi-byte identifiers, strings and comments, plus 1-3 token mutations of them and token soup; every ACCEPTED input is judged: "
     "each position must hold the lexeme its node names (table in tools/pfam.py), pairs open before close, inner children strictly "
     "between, identifier/literal leaves in source order; crate and model compared on the tree with all positions; non-trivial = accepted inputs",
-    lambda run: fam_valid_mut_soup(250, 2, 300)(run) + pfam.position_directed_cases(), nontrivial=accepted)
+    lambda run: fam_valid_mut_soup(250, 2, 300)(run) + pfam.position_directed_cases() + pfam.comment_injection_cases(), nontrivial=accepted)
+
+def order_cases():
+    """the order the grammar fixes between top-level parts: package clause, imports, other declarations"""
+    decls = ["var x int", "func f() {}", "type T int", "const c = 1", "var (\n\ta = 1\n)", "func (r R) m() {}"]
+    imps = ["import \"fmt\"", "import (\n\t\"a\"\n\tb \"c\"\n)", "import . \"d\"", "import ()", "import _ \"e\""]
+    out = []
+    for d in decls:
+        for i in imps:
+            out.append(pfam.Case("package p\n\n%s\n\n%s\n" % (d, i), "F-order"))
+            out.append(pfam.Case("package p\n\n%s\n\n%s\n\n%s\n" % (imps[0], d, i), "F-order"))
+            out.append(pfam.Case("package p\n\n%s\n\n%s\n" % (i, d), "F-order"))
+            out.append(pfam.Case("%s\n\npackage p\n\n%s\n" % (i, d), "F-order"))
+            out.append(pfam.Case("package p; %s; %s; package q" % (i.replace("\n", " ").replace("( ", "(").replace("\t", ""), d), "F-order"))
+    return out
+
 
 check_c06 = parser_check(
     "C06", "theories/props/C06.v", "positions", oracle_accounted,
@@ -796,7 +833,7 @@ check_c06 = parser_check(
     "generated valid programs, 1-3 token deletions/insertions/duplications/swaps/replacements of them, token soup; for every ACCEPTED "
     "input the scanner's token dump (hook) is compared with the leaves of the returned tree (same text, same offset, each once, in order), "
     "the bracket tokens must nest and the first token must be `package`; non-trivial = accepted inputs",
-    lambda run: fam_valid_mut_soup(200, 6, 1500, styles=("random", "dense"))(run) + pfam.text_mutants(), nontrivial=accepted)
+    lambda run: fam_valid_mut_soup(200, 6, 1500, styles=("random", "dense"))(run) + pfam.text_mutants() + order_cases(), nontrivial=accepted)
 
 check_c11 = parser_check(
     "C11", "theories/props/C11.v", "comments", oracle_comments,
@@ -916,6 +953,14 @@ def c08_trees(run, fam):
               lambda c, l, t: None if pfam.proj_shape(l) == ref_i[c.prog] else
               "a line break where the spec inserts no semicolon changes the result: %s vs %s" % (ref_i[c.prog][:50], pfam.proj_shape(l)[:50]),
               "line breaks in every gap of directed snippets")
+    # every `;`-separated list: explicit semicolons on one line vs one item per line (LF, CRLF)
+    sep = [c for c in pfam.separator_cases() if pfam.SEPARATED[c.prog][2] == ";"]
+    impl_s, mod_s, toks_s = fam.exec(sep, mode="parse")
+    ref_s = {c.prog: pfam.proj_shape(l) for c, l in zip(sep, impl_s) if c.style == "1"}
+    fam.judge(sep, impl_s, mod_s, toks_s, "shape",
+              lambda c, l, t: None if pfam.proj_shape(l) == ref_s[c.prog] else
+              "explicit semicolons and line ends give different results for the same list: %s vs %s" % (ref_s[c.prog][:50], pfam.proj_shape(l)[:50]),
+              "newline rendering == explicit-semicolon rendering of every bracketed list")
 
 
 _check_c08_tokens = lex_check(
@@ -996,7 +1041,43 @@ check_c16 = parser_check(
     "and at the error), token soup; every REJECTED input is judged: the error must downcast to gosyn::Error with a location; (line, column) "
     "must be a position of the input; for an unexpected token its text must be found there, for an unexpected EOF it must be the end of "
     "input; crate and model compared on the whole error line; non-trivial = rejected inputs",
-    fam_err, tokens=False, nontrivial=lambda c, l: l.startswith("ERR"))
+    fam_err, tokens=False, nontrivial=lambda c, l: l.startswith("ERR"), extra=lambda run, fam, gv, gm: c16_files(run, fam, gv))
+
+
+def c16_files(run, fam, gv):
+    """the same rejections through the disk entry point: the error carries the file's path (with and without a byte
+    order mark) and the location of the in-memory parse of the contents"""
+    import shutil
+    srcs = [c.src for c in site_corpus_cases() if c.family == "F-err-site"][:: 2] + [c.src for c in long_token_cases()[:: 40]]
+    mem = vlib.run_records(gv, "parse", srcs)
+    base_d = os.path.join(vlib.WORK, "c16files")
+    shutil.rmtree(base_d, ignore_errors=True)
+    bad = 0
+    try:
+        for bom in (False, True):
+            d = os.path.join(base_d, "bom" if bom else "plain")
+            os.makedirs(d, exist_ok=True)
+            paths = []
+            for i, t in enumerate(srcs):
+                pth = os.path.join(d, "%d.go" % i)
+                with open(pth, "wb") as f:
+                    f.write((b"\xef\xbb\xbf" if bom else b"") + t.encode("utf-8"))
+                paths.append(pth)
+            lines = vlib.run_records(gv, "file", paths)
+            for t, pth, l, m in zip(srcs, paths, lines, mem):
+                if not m.startswith("ERR"):
+                    continue
+                want = "%s path=%s" % (m, pfam_esc(pth))
+                if l != want:
+                    bad += 1
+                    if bad <= 3:
+                        run.violation({"kind": "impl-vs-spec", "family": "F-err-file", "file_text": t, "bom": bom, "impl": l[:400], "expected": want[:400],
+                                       "oracle": "a rejected file%s: the error must be the in-memory error with the file's path: got %s" % (
+                                           " with a byte order mark" if bom else "", l[:200])})
+    finally:
+        shutil.rmtree(base_d, ignore_errors=True)
+    run.cov["evaluations"] += 2 * len(srcs)
+    run.extra.setdefault("families", []).append({"family": "F-err-file (parse_file, with and without BOM)", "inputs": 2 * len(srcs), "failures": bad})
 
 
 def kf21(case, msg, line):
@@ -1070,7 +1151,8 @@ def check_c02(run, replay):
 
 def c02_extra(run, fam, gv, gm):
     witness_findings(run, gv, lambda k, w, l: not l.startswith("OK "))
-    gc = golden_cases() + pfam.tparam_cases() + [pfam.Case(c.src, "F-valid") for c in pfam.type_position_cases()]
+    gc = golden_cases() + pfam.tparam_cases() + [pfam.Case(c.src, "F-valid") for c in pfam.type_position_cases()] + \
+        [pfam.Case(c.src, "F-valid") for c in pfam.separator_cases()]
     for c in gc:
         c.family = "F-valid"
     impl_g, mod_g, _ = fam.exec(gc)
@@ -1192,6 +1274,15 @@ def check_c13(run, replay):
               lambda c, l, t: None if pfam.proj_shape(l) == ref_i[c.prog] else
               "a layout change that keeps the token sequence changes the result: %s vs %s" % (ref_i[c.prog][:50], pfam.proj_shape(l)[:50]),
               "layout injection in every gap")
+    # optional separators: every bracketed list with and without its final `;` / `,`, on one line and one item per
+    # line (LF and CRLF): one program
+    sep = pfam.separator_cases()
+    impl_s, mod_s, toks_s = fam.exec(sep)
+    ref_s = {c.prog: pfam.proj_shape(l) for c, l in zip(sep, impl_s) if c.style == "0"}
+    fam.judge(sep, impl_s, mod_s, toks_s, "shape",
+              lambda c, l, t: ("valid Go rejected: %s" % l[:60]) if not l.startswith("OK ") else None if pfam.proj_shape(l) == ref_s[c.prog] else
+              "writing or omitting the optional separator / breaking the lines changes the tree: %s" % pfam.sexpr.first_diff(ref_s[c.prog], pfam.proj_shape(l)),
+              "optional separators before a closing bracket")
     # mutants too: the accept/reject decision and the error token must not depend on layout either
     mcases = []
     for i, (rng, p) in enumerate(progs[: len(progs) // 2]):
@@ -1500,6 +1591,16 @@ def check_c15(run, replay):
             return "the block [A; B] is not A's tree followed by B's tree (A = %r, B = %r)" % (a, b)
         return None
     fam.judge(pc, impl_p, mod_p, [None] * len(pc), "shape", pair_oracle, "a statement parses the same after any other statement")
+    # the same with a line break as the only separator, after every kind of token that ends a statement
+    enders = ["continue", "break", "return", "fallthrough", "goto L", "x++", "x--", "f()", "a[i]", "p.q", "v = 1", "w = 'c'", "s = \"s\"",
+              "r = `r`", "z = 2i", "y = 1.5", "t = T{}", "{ }", "break L", "continue L", "return x"]
+    esc = [pfam.Case("package p\nfunc _() { " + a + " }\n", "F-stmt-single") for a in enders]
+    impl_es, _, _ = fam.exec(esc, model=False)
+    for a, l in zip(enders, impl_es):
+        single[a] = [pfam.sexpr.dump(x) for x in last_decl(pfam.tree_of(l)).kids[3].kids if x.tag != "Empty"] if l.startswith("OK ") else None
+    nlp = [pfam.Case("package p\nfunc _() {\n\t" + a + "\n\t" + b + "\n}\n", "F-stmt-pair-newline", note=(a, b)) for a in enders for b in FRAG_STMTS + enders]
+    impl_n, mod_n, _ = fam.exec(nlp)
+    fam.judge(nlp, impl_n, mod_n, [None] * len(nlp), "shape", pair_oracle, "a statement parses the same on the line after any other statement")
     # declarations: alone in a file vs after a prefix
     whole = pfam.valid_cases(progs, ("random",)) + pfam.mutant_cases(progs, 2)
     impl_w, mod_w, _ = fam.exec(whole, mode="parse+s")
@@ -2055,6 +2156,18 @@ def check_c19(run, replay):
              "package p; var x = []string{" + "\"a\\tb\\u00e9\", `raw\n`, " * n_ + "}",
              "package p; func f() { " + "x <<= 1; y &^= z; c <- v; /* c */ // d\n " * n_ + "}",
              "package p; var x = " + "(" * 60 + "y" + ")" * 60 + "; var z = " + "- " * 150 + "y"] * 2
+    # siblings that differ only in their last characters, with multi-byte text inside and no newline at the end: a
+    # scanner that looks past the end of its own text sees what the previous parser left there
+    for base_ in ("package p\n\n// \u8d85\u65f6 (\u79d2)\nconst xxxx = 0x1", "package p\nvar \u00e9 = 1", "package \u65e5\nvar v = 1.5",
+                  "package p /* \U0001F600 */\nvar s = \"\u00e9\"; var b = 0b1", "package p\nfunc f() { \u03c0 := x"):
+        for suf in ("", "e", "i", "p1", ".5", "5", "_1", "e+3", "x", "e1", "++", ".", "\"", "'", "/*", "//", " }", "\n"):
+            srcs.append(base_ + suf)
+    # ... in sizes that walk through the allocator's size classes, each text right after its longer sibling (the
+    # sequential baseline parses the records in this order and is compared with the model)
+    for lit, tail in (("0x1", "e"), ("1", "i"), ("1", "p1"), ("7", ".5")):
+        for pad in range(0, 48):
+            b_ = "package p\n\n// \u8d85\u65f6 (\u79d2)\nconst %s = %s" % ("x" * (pad + 1), lit)
+            srcs += [b_ + tail, b_]
     rounds = budget(run, 2, 6)
     total_exec = 0
     for r in range(rounds):
